@@ -45,6 +45,12 @@ def cases(draw):
     dd = [[n, draw(st.integers(2, 4))] for n in names[n_sp:n_sp + n_dd]]
     cont = []
     for n in names[n_sp + n_dd:]:
+        if cont and draw(st.integers(0, 2)) == 0:
+            # the SAME grid specification as an earlier continuous variable (possibly not the
+            # neighbouring one): equal grids on different axes
+            src = cont[draw(st.integers(0, len(cont) - 1))]
+            cont.append([n, *src[1:]])
+            continue
         log = draw(st.booleans())
         k = draw(st.integers(2, 7))
         if log:
@@ -210,6 +216,8 @@ def check(case):
     cl = [f"exec_{case['exec']}", f"n_cont_{len(cont)}", f"n_restricted_{len(sp)}"]
     if any(c[1] == "log" for c in cont):
         cl.append("log_grid")
+    if len({tuple(c[1:]) for c in cont}) < len(cont):
+        cl.append("equal_grids_on_several_axes")
     out = Outcome(digest=dg, classes=cl, nontrivial=nt, info={"points": len(points)})
     if msgs:
         out.status = "violation"
